@@ -529,3 +529,465 @@ Proof.
   simpl. unfold names. rewrite Ef. reflexivity.
 Qed.
 End Assembly.
+
+(* ------------------------------------------------------------ refusal of invalid schemas *)
+Local Open Scope list_scope.
+Section Refusal.
+Variable O : oracles.
+
+Definition numeric (t : ty) : Prop := t <> TStr /\ t <> TBool.
+
+(* what is wrong with one field (its name being a string) *)
+Inductive field_bad (f : field) : Prop :=
+| bad_name : forall n, fname f = Some (YStr n) -> o_is_ident O n = false -> field_bad f
+| bad_type : forall n, fname f = Some (YStr n) -> typemap (type_of f) = None -> field_bad f
+| no_fill : forall n t, fname f = Some (YStr n) -> typemap (type_of f) = Some t -> numeric t ->
+                        ffill f = None -> field_bad f.
+
+(* the documented violations of a schema *)
+Inductive violation (s : schema) : Prop :=
+| v_no_delimiter : sdelim s = None -> violation s
+| v_no_missing : smissing s = None -> violation s
+| v_no_fields_key : sfields s = None -> violation s
+| v_empty_fields : sfields s = Some [] -> violation s
+| v_delim_eq_missing : forall d, sdelim s = Some d -> smissing s = Some d -> violation s
+| v_delim_in_missing : forall d m, sdelim s = Some d -> smissing s = Some m -> contains m d = true -> violation s
+| v_field : forall pre f post, sfields s = Some (pre ++ f :: post) ->
+                               validate_fields O pre = Ok true -> field_bad f -> violation s.
+
+Lemma validate_fields_app_bad : forall pre f post,
+  validate_fields O pre = Ok true -> field_bad f -> validate_fields O (pre ++ f :: post) = Ok false.
+Proof.
+  induction pre as [|a pre IH]; intros f post Hp Hb.
+  - simpl. destruct Hb as [n Hn Hi | n Hn Ht | n t Hn Ht [N1 N2] Hf]; rewrite Hn.
+    + rewrite Hi. reflexivity.
+    + destruct (negb (o_is_ident O n)); auto. rewrite Ht. reflexivity.
+    + destruct (negb (o_is_ident O n)); auto. rewrite Ht. unfold has_fill. rewrite Hf.
+      destruct t; try congruence; reflexivity.
+  - simpl in *. destruct (fname a) as [[| n | | | |]|]; try discriminate.
+    destruct (negb (o_is_ident O n)); [discriminate|].
+    destruct (typemap (type_of a)) as [t|]; [|discriminate].
+    destruct (negb (ty_eqb t TStr || ty_eqb t TBool) && negb (has_fill a)); [discriminate|].
+    apply IH; auto.
+Qed.
+
+Lemma validate_fields_false_inv : forall fs, validate_fields O fs = Ok false ->
+  exists pre f post, fs = pre ++ f :: post /\ validate_fields O pre = Ok true /\ field_bad f.
+Proof.
+  induction fs as [|a fs IH]; intros H; [discriminate|].
+  simpl in H. destruct (fname a) as [[| n | | | |]|] eqn:En; try discriminate.
+  destruct (o_is_ident O n) eqn:Ei; simpl in H.
+  2:{ exists [], a, fs. repeat split; auto. eapply bad_name; eauto. }
+  destruct (typemap (type_of a)) as [t|] eqn:Et.
+  2:{ exists [], a, fs. repeat split; auto. eapply bad_type; eauto. }
+  destruct (negb (ty_eqb t TStr || ty_eqb t TBool) && negb (has_fill a)) eqn:Eg.
+  - exists [], a, fs. repeat split; auto. apply andb_true_iff in Eg. destruct Eg as [G1 G2].
+    eapply no_fill; eauto.
+    + split; intro; subst t; discriminate.
+    + unfold has_fill in G2. destruct (ffill a); [discriminate | reflexivity].
+  - destruct (IH H) as [pre [f [post [E [Vp B]]]]]. exists (a :: pre), f, post. subst fs. repeat split; auto.
+    simpl. rewrite En, Ei, Et. simpl. rewrite Eg. exact Vp.
+Qed.
+
+Theorem validate_false_iff : forall s, validate_schema O s = Ok false <-> violation s.
+Proof.
+  intros s; split.
+  - unfold validate_schema. intros H.
+    destruct (sdelim s) as [d|] eqn:Ed; [|apply v_no_delimiter; auto].
+    destruct (smissing s) as [m|] eqn:Em; [|apply v_no_missing; auto].
+    destruct (sfields s) as [fs|] eqn:Ef; [|apply v_no_fields_key; auto].
+    destruct fs as [|f fs]; [apply v_empty_fields; auto|].
+    destruct (String.eqb d m) eqn:E1.
+    { apply String.eqb_eq in E1. subst m. eapply v_delim_eq_missing; eauto. }
+    destruct (contains m d) eqn:E2; [eapply v_delim_in_missing; eauto|].
+    simpl negb in H. cbv iota in H. simpl andb in H.
+    destruct (validate_fields_false_inv _ H) as [pre [g [post [E [Vp B]]]]].
+    eapply v_field; eauto. rewrite Ef, E. reflexivity.
+  - unfold validate_schema.
+    intros [H | H | H | H | d Hd Hm | d m Hd Hm Hc | pre f post Hf Vp B].
+    + rewrite H. reflexivity.
+    + rewrite H. destruct (sdelim s); reflexivity.
+    + rewrite H. destruct (sdelim s), (smissing s); reflexivity.
+    + rewrite H. destruct (sdelim s), (smissing s); reflexivity.
+    + rewrite Hd, Hm. destruct (sfields s); auto. rewrite String.eqb_refl. simpl. rewrite andb_false_r. reflexivity.
+    + rewrite Hd, Hm. destruct (sfields s); auto. rewrite Hc. simpl. rewrite andb_false_r. reflexivity.
+    + rewrite Hf. destruct (sdelim s), (smissing s); auto.
+      destruct (negb (Nat.eqb (length (pre ++ f :: post)) 0) && negb (String.eqb s0 s1) && negb (contains s1 s0)); auto.
+      apply validate_fields_app_bad; auto.
+Qed.
+
+Definition equal_lengths (data : list (list cell)) : Prop :=
+  match data with [] => False | c0 :: rest => Forall (fun c => length c = length c0) rest end.
+
+Theorem invalid_schema_refused_proof : forall s,
+  violation s ->
+  (forall data, equal_lengths data -> save O s data = Err SCSV) /\
+  (forall rows, read O (YLoaded s) rows = Err SCSV).
+Proof.
+  intros s V. apply validate_false_iff in V. split.
+  - intros data E. destruct data as [|c0 rest]; [contradiction|]. unfold save.
+    rewrite existsb_lengths; auto. rewrite V. reflexivity.
+  - intros rows. unfold read. rewrite V. reflexivity.
+Qed.
+
+(* ------------------------------------------------------------ refusal of invalid data *)
+Theorem unequal_lengths_refused : forall s (c0 : list cell) rest,
+  Exists (fun c => length c <> length c0) rest -> save O s (c0 :: rest) = Err SCSV.
+Proof.
+  intros s c0 rest E. unfold save.
+  assert (X : existsb (fun c => negb (Nat.eqb (length c) (length c0))) rest = true).
+  { apply existsb_exists. apply Exists_exists in E. destruct E as [c [I N]]. exists c. split; auto.
+    apply negb_true_iff. apply Nat.eqb_neq; auto. }
+  rewrite X. reflexivity.
+Qed.
+
+Definition accepted (m : string) (d : cell) (tf : ty * yval) : Prop :=
+  exists x, save_cell O m (fst tf) (snd tf) d = Ok x.
+
+Lemma save_row_ok_inv : forall m tfs row out, save_row O m tfs row = Ok out -> Forall2 (accepted m) row tfs.
+Proof.
+  induction tfs as [|[t v] tfs IH]; intros row out H; destruct row as [|d row]; simpl in H; try discriminate.
+  - constructor.
+  - destruct (save_cell O m t v d) as [x|] eqn:E; [|discriminate]. simpl in H.
+    destruct (save_row O m tfs row) as [r|] eqn:Er; [|discriminate]. constructor; eauto. exists x; auto.
+Qed.
+
+Lemma save_row_too_many : forall m tfs pre extra,
+  Forall2 (accepted m) pre tfs -> extra <> [] -> save_row O m tfs (pre ++ extra) = Err SCSV.
+Proof.
+  induction 1 as [|d [t v] pre tfs [x A] F IH]; intros N.
+  - destruct extra; [congruence | reflexivity].
+  - simpl in *. rewrite A. simpl. rewrite (IH N). reflexivity.
+Qed.
+
+Lemma save_row_too_few : forall m row pre extra,
+  Forall2 (accepted m) row pre -> extra <> [] -> save_row O m (pre ++ extra) row = Err SCSV.
+Proof.
+  induction 1 as [|d [t v] row pre [x A] F IH]; intros N.
+  - destruct extra; [congruence | reflexivity].
+  - simpl in *. rewrite A. simpl. rewrite (IH N). reflexivity.
+Qed.
+
+Lemma save_row_bad_cell : forall m pre pre_tfs d t v post post_tfs e,
+  Forall2 (accepted m) pre pre_tfs -> save_cell O m t v d = Err e ->
+  save_row O m (pre_tfs ++ (t, v) :: post_tfs) (pre ++ d :: post) = Err e.
+Proof.
+  induction 1 as [|d0 [t0 v0] pre pre_tfs [x A] F IH]; intros B.
+  - simpl. rewrite B. reflexivity.
+  - simpl in *. rewrite A. simpl. rewrite (IH B). reflexivity.
+Qed.
+
+Lemma save_cell_unparsable : forall m t v d,
+  parse_cell O t (pystr O d) m v = Err EValue -> save_cell O m t v d = Err SCSV.
+Proof. intros m t v d H. unfold save_cell. rewrite H. reflexivity. Qed.
+
+Lemma map_res_first_err : forall A B (f : A -> res B) pre x post e,
+  (exists ys, map_res f pre = Ok ys) -> f x = Err e -> map_res f (pre ++ x :: post) = Err e.
+Proof.
+  induction pre as [|a pre IH]; intros x post e [ys H] E.
+  - simpl. rewrite E. reflexivity.
+  - simpl in *. destruct (f a); [|discriminate]. simpl in *.
+    destruct (map_res f pre) eqn:Ep; [|discriminate]. rewrite (IH x post e); eauto.
+Qed.
+
+Lemma map_res_ok_all : forall A B (f : A -> res B) l ys, map_res f l = Ok ys ->
+  Forall (fun x => exists y, f x = Ok y) l.
+Proof.
+  induction l as [|a l IH]; intros ys H; constructor.
+  - simpl in H. destruct (f a) eqn:E; [eauto | discriminate].
+  - simpl in H. destruct (f a); [|discriminate]. simpl in H. destruct (map_res f l) eqn:E; [eauto | discriminate].
+Qed.
+
+(* with a valid schema, equal column lengths and an accepted delimiter, save is the row loop *)
+Lemma save_unfold : forall s d m fs tfs c0 rest,
+  validate_schema O s = Ok true -> sdelim s = Some d -> smissing s = Some m -> sfields s = Some fs ->
+  field_types fs = Ok tfs -> o_delim_err O d = None ->
+  Forall (fun c => length c = length c0) rest ->
+  save O s (c0 :: rest) =
+  bind (map_res (save_row O m tfs) (zipn (length c0) (c0 :: rest))) (fun rows => Ok (map name_str fs :: rows)).
+Proof.
+  intros s d m fs tfs c0 rest V Ed Em Ef Et Hd F. unfold save.
+  rewrite existsb_lengths; auto. rewrite V. simpl bind. cbv iota. simpl negb. cbv iota.
+  rewrite Ed, Em, Ef, Et. simpl bind. rewrite Hd. reflexivity.
+Qed.
+
+(* a row that is refused (all earlier rows accepted) makes save fail with that row's error:
+   wrong column count and unparsable cells give SCSV by the save_row lemmas above *)
+Theorem invalid_data_refused_proof : forall s d m fs tfs c0 rest pre row post e,
+  validate_schema O s = Ok true -> sdelim s = Some d -> smissing s = Some m -> sfields s = Some fs ->
+  field_types fs = Ok tfs -> o_delim_err O d = None ->
+  Forall (fun c => length c = length c0) rest ->
+  zipn (length c0) (c0 :: rest) = pre ++ row :: post ->
+  (exists ys, map_res (save_row O m tfs) pre = Ok ys) ->
+  save_row O m tfs row = Err e ->
+  save O s (c0 :: rest) = Err e.
+Proof.
+  intros. rewrite (save_unfold s d m fs tfs); auto. rewrite H6.
+  rewrite (map_res_first_err _ _ _ pre row post e); auto.
+Qed.
+
+(* completeness: save succeeds only on a valid schema, equal-length columns, and - when there
+   is at least one row - one column per field with every cell accepted *)
+Theorem save_ok_only_if : forall s data rows, save O s data = Ok rows ->
+  equal_lengths data /\ validate_schema O s = Ok true /\
+  exists d m fs tfs, sdelim s = Some d /\ smissing s = Some m /\ sfields s = Some fs /\
+    field_types fs = Ok tfs /\ o_delim_err O d = None /\
+    Forall (fun row => Forall2 (accepted m) row tfs) (zipn (nrows_of data) data).
+Proof.
+  intros s data rows H. unfold save in H. destruct data as [|c0 rest]; [discriminate|].
+  destruct (existsb (fun c => negb (Nat.eqb (length c) (length c0))) rest) eqn:Ex; [discriminate|].
+  assert (EL : equal_lengths (c0 :: rest)).
+  { simpl. apply Forall_forall. intros c I. destruct (Nat.eqb (length c) (length c0)) eqn:E.
+    - apply Nat.eqb_eq; auto.
+    - assert (existsb (fun c => negb (Nat.eqb (length c) (length c0))) rest = true).
+      { apply existsb_exists. exists c. rewrite E. auto. } congruence. }
+  destruct (validate_schema O s) as [[|]|] eqn:V; simpl in H; try discriminate.
+  destruct (sdelim s) as [d|]; [|discriminate]. destruct (smissing s) as [m|]; [|discriminate].
+  destruct (sfields s) as [fs|]; [|discriminate].
+  destruct (field_types fs) as [tfs|] eqn:Et; simpl in H; [|discriminate].
+  destruct (o_delim_err O d) as [e0|] eqn:Hd; [destruct e0; discriminate|].
+  destruct (map_res (save_row O m tfs) (zipn (length c0) (c0 :: rest))) as [rs|] eqn:Er; [|discriminate].
+  repeat split; auto. exists d, m, fs, tfs. repeat split; auto.
+  simpl nrows_of. pose proof (map_res_ok_all _ _ _ _ _ Er) as A.
+  eapply Forall_impl; [|exact A]. intros row [y Hy]. eapply save_row_ok_inv; eauto.
+Qed.
+
+(* on the read side an invalid header is refused with SCSV, a header row that differs from
+   the schema's field names too; unparsable cells and ragged rows surface as ValueError *)
+Theorem read_header_mismatch : forall s d m fs hdr body,
+  validate_schema O s = Ok true -> sdelim s = Some d -> smissing s = Some m -> sfields s = Some fs ->
+  o_delim_err O d = None -> list_str_eqb (map name_str fs) (map strip hdr) = false ->
+  read O (YLoaded s) (hdr :: body) = Err SCSV.
+Proof.
+  intros s d m fs hdr body V Ed Em Ef Hd N. unfold read. rewrite V. simpl bind. cbv iota. simpl negb. cbv iota.
+  rewrite Ed, Em, Ef, Hd, N. reflexivity.
+Qed.
+End Refusal.
+
+(* ------------------------------------------------------------ a concrete oracle: non-vacuity, witnesses *)
+Local Open Scope string_scope.
+
+Definition toy_int_of (s : string) : res Z :=
+  if String.eqb s "5" then Ok 5%Z else if String.eqb s "0" then Ok 0%Z else if String.eqb s "6" then Ok 6%Z else Err EValue.
+Definition toy_float_of (s : string) : res ftok :=
+  if String.eqb s "0.0" then Ok (FFin "0.0") else if String.eqb s "-0.0" then Ok (FFin "-0.0")
+  else if String.eqb s "1.5" then Ok (FFin "1.5") else if String.eqb s "nan" then Ok FNan
+  else if String.eqb s "NaN" then Ok FNan else Err EValue.
+Definition toy_transport (d : string) (rows : list (list string)) : res (list (list string)) :=
+  if forallb (fun r => negb (list_str_eqb r ["---"]) && forallb no_break r) rows then Ok rows else Err ECsv.
+
+Definition toyO : oracles :=
+  mkO (fun n => negb (String.eqb n "") && negb (String.eqb n "bad name"))
+      (fun ns => negb (existsb (String.prefix "_") ns))
+      (fun d => if Nat.eqb (utf8_len d) 1 then None else Some EType)
+      (fun z => if Z.eqb z 5 then "5" else if Z.eqb z 6 then "6" else "0")
+      (fun _ _ => "(0j)")
+      toy_int_of toy_float_of (fun _ => Err EValue)
+      (fun _ _ => false)
+      toy_transport.
+
+Lemma toy_oracle_ok : oracle_ok toyO.
+Proof.
+  split.
+  - intros d H. unfold csv_legal in H. apply andb_true_l in H. simpl. rewrite H. reflexivity.
+  - intros d rows _ F. simpl. unfold toy_transport.
+    assert (X : forallb (fun r => negb (list_str_eqb r ["---"]) && forallb no_break r) rows = true).
+    { apply forallb_forall. intros r I. rewrite Forall_forall in F. destruct (F r I) as [P [_ N]].
+      apply andb_true_iff; split.
+      - apply negb_true_iff. destruct (list_str_eqb r ["---"]) eqn:E; auto.
+        apply list_str_eqb_eq in E. congruence.
+      - apply forallb_forall. intros x Ix. rewrite Forall_forall in P. specialize (P x Ix).
+        unfold plain in P. apply andb_true_r in P. exact P. }
+    rewrite X. reflexivity.
+Qed.
+
+Definition fld (n t : string) (fill : option yval) : field := mkField (Some (YStr n)) (Some t) fill.
+Definition sch (d m : string) (fs : list field) : schema := mkSchema (Some d) (Some m) (Some fs).
+
+(* three fields, two rows; the second row consists of fill values (NaN fill included) *)
+Definition ex_schema : schema :=
+  sch "," "-" [fld "name" "string" (Some (YStr "MISSING")); fld "count" "integer" (Some (YStr "0"));
+               fld "value" "float" (Some (YStr "NaN")); fld "flag" "boolean" None].
+Definition ex_data : list (list cell) :=
+  [[CStr "B, b"; CStr "MISSING"]; [CInt 5; CInt 0]; [CFloat (FFin "1.5"); CFloat FNan]; [CBool true; CBool false]].
+
+Lemma nonvacuous_proof :
+  oracle_ok toyO /\ validate_schema toyO ex_schema = Ok true /\ representable toyO ex_schema ex_data = true /\
+  header_faithful toyO ex_schema (YLoaded ex_schema) = true /\
+  save toyO ex_schema ex_data =
+    Ok [["name"; "count"; "value"; "flag"]; ["B, b"; "5"; "1.5"; "True"]; ["-"; "-"; "-"; "False"]] /\
+  read_back toyO ex_schema (YLoaded ex_schema) ex_data = Ok (["name"; "count"; "value"; "flag"], ex_data).
+Proof. split; [exact toy_oracle_ok|]. repeat split; vm_compute; reflexivity. Qed.
+
+(* cells equal to the fill are written as the missing marker *)
+Theorem fill_cells_written_as_missing : forall O s data d m fs tfs,
+  (forall d, csv_legal d = true -> o_delim_err O d = None) ->
+  validate_schema O s = Ok true -> rep_facts O s data d m fs tfs ->
+  save O s data = Ok (map name_str fs :: zipn (nrows_of data) (out_cols O m tfs data)) /\
+  (forall t v c, substituted O t v c = Ok true -> out_text O m t v c = m).
+Proof.
+  intros. split; [eapply save_spec; eauto|]. intros t v c S. unfold out_text. rewrite S. reflexivity.
+Qed.
+
+(* ---- representable: every clause is needed.  Clause k dropped = mask k *)
+Section Masked.
+Variable O : oracles.
+Variable mk : nat -> bool.
+
+Definition cell_ok_m (ncols : nat) (m : string) (t : ty) (v : yval) (d : cell) : bool :=
+  cl_typed t d && (mk 2 || cl_plain O d) && (mk 3 || cl_text_rt O t d) && (mk 4 || cl_fill_exact O t v d)
+  && (mk 5 || cl_not_missing O m d) && (mk 6 || cl_no_fence O ncols m t v d).
+
+Fixpoint cols_ok_m (ncols nrows : nat) (m : string) (tfs : list (ty * yval)) (data : list (list cell)) : bool :=
+  match tfs, data with
+  | [], [] => true
+  | (t, v) :: tfs', c :: data' =>
+      Nat.eqb (length c) nrows && forallb (cell_ok_m ncols m t v) c && cols_ok_m ncols nrows m tfs' data'
+  | _, _ => mk 7
+  end.
+
+Definition representable_m (s : schema) (data : list (list cell)) : bool :=
+  match sdelim s, smissing s, sfields s with
+  | Some d, Some m, Some fs =>
+      match field_types fs with
+      | Ok tfs =>
+          (mk 12 || csv_legal d) && (mk 11 || plain m) && (mk 8 || negb (Nat.eqb (nrows_of data) 0))
+          && forallb (fun n => plain n && negb (String.eqb n "---")) (map name_str fs)
+          && (mk 10 || o_nt_ok O (map name_str fs))
+          && cols_ok_m (length fs) (nrows_of data) m tfs data
+      | Err _ => false
+      end
+  | _, _, _ => false
+  end.
+End Masked.
+
+Lemma typed_is_implied : forall O t d, cl_text_rt O t d = true -> cl_typed t d = true.
+Proof.
+  intros O t d H. unfold cl_text_rt in H. destruct t.
+  - simpl in H. destruct d; simpl in *; auto; discriminate.
+  - apply res_cell_eqb_eq in H. simpl in H. destruct (o_int_of O (pystr O d)); simpl in H; inversion H; reflexivity.
+  - apply res_cell_eqb_eq in H. simpl in H. destruct (o_float_of O (pystr O d)); simpl in H; inversion H; reflexivity.
+  - destruct d; try discriminate; reflexivity.
+  - apply res_cell_eqb_eq in H. simpl in H. destruct (o_cplx_of O (pystr O d)); simpl in H; inversion H; reflexivity.
+Qed.
+
+Definition needed (k : nat) (s : schema) (data : list (list cell)) : Prop :=
+  validate_schema toyO s = Ok true /\ header_faithful toyO s (YLoaded s) = true /\
+  representable_m toyO (Nat.eqb k) s data = true /\ representable toyO s data = false /\
+  read_back toyO s (YLoaded s) data <> Ok (names s, data).
+
+Ltac needed_tac := unfold needed; repeat split; try (vm_compute; reflexivity); vm_compute; discriminate.
+
+Definition nl : string := String (ascii_of_N 10) "".
+
+Lemma representable_needed_proof :
+  (forall s data, representable_m toyO (fun _ => false) s data = representable toyO s data) /\
+  (* 2: surrounding white space; a line break *)
+  needed 2 (sch "," "-" [fld "a" "string" (Some (YStr "x"))]) [[CStr " lead"]] /\
+  needed 2 (sch "," "-" [fld "a" "string" (Some (YStr "x"))]) [[CStr ("a" ++ nl ++ "b")]] /\
+  (* 3: a value whose text does not parse back *)
+  needed 3 (sch "," "-" [fld "a" "float" (Some (YStr "NaN"))]) [[CFloat (FFin "abc")]] /\
+  (* 4: == the fill but not identical to it: -0.0 with fill 0.0 *)
+  needed 4 (sch "," "-" [fld "a" "float" (Some (YStr "0.0"))]) [[CFloat (FFin "-0.0")]] /\
+  (* 5: text equal to the missing marker *)
+  needed 5 (sch "," "5" [fld "a" "integer" (Some (YStr "0"))]) [[CInt 5; CInt 6]] /\
+  (* 6: one-column row '---' *)
+  needed 6 (sch "," "-" [fld "a" "string" (Some (YStr "x"))]) [[CStr "---"]] /\
+  (* 7: one column per field *)
+  needed 7 (sch "," "-" [fld "a" "string" (Some (YStr "x"))]) [[CStr "p"]; [CStr "q"]] /\
+  (* 8: at least one row *)
+  needed 8 (sch "," "-" [fld "a" "string" (Some (YStr "x"))]) [[]] /\
+  (* 10: field names accepted by namedtuple *)
+  needed 10 (sch "," "-" [fld "_a" "string" (Some (YStr "x"))]) [[CStr "p"]] /\
+  (* 11: missing marker without surrounding white space *)
+  needed 11 (sch "," " -" [fld "a" "string" (Some (YStr "x"))]) [[CStr "x"]] /\
+  (* 12: CSV-legal delimiter *)
+  needed 12 (sch ",," "-" [fld "a" "string" (Some (YStr "x"))]) [[CStr "p"]].
+Proof.
+  split; [reflexivity|]. repeat split; try (vm_compute; reflexivity); vm_compute; discriminate.
+Qed.
+
+(* ---- the open finding, in the model: a string field with fill '' whose header YAML loads as null *)
+Definition none_schema : schema := sch "," "-" [fld "a" "string" (Some (YStr ""))].
+Definition none_loaded : yres := YLoaded (sch "," "-" [fld "a" "string" (Some YNull)]).
+
+Lemma header_unfaithful_witness_proof :
+  oracle_ok toyO /\ validate_schema toyO none_schema = Ok true /\
+  representable toyO none_schema [[CStr "x"; CStr ""; CStr "y"]] = true /\
+  header_faithful toyO none_schema none_loaded = false /\
+  read_back toyO none_schema none_loaded [[CStr "x"; CStr ""; CStr "y"]]
+    = Ok (["a"], [[CStr "x"; CStr "None"; CStr "y"]]).
+Proof. split; [exact toy_oracle_ok|]. repeat split; vm_compute; reflexivity. Qed.
+
+(* ---- terse schema parser *)
+Lemma terse_field_spec : forall name,
+  terse_field name "s" = Ok (mkField (Some (YStr name)) (Some "string") (Some (YStr ""))) /\
+  terse_field name "" = Ok (mkField (Some (YStr name)) (Some "string") (Some (YStr ""))) /\
+  terse_field name "i:999999" = Ok (mkField (Some (YStr name)) (Some "integer") (Some (YStr "999999"))) /\
+  terse_field name "f:NaN:%" = Ok (mkField (Some (YStr name)) (Some "float") (Some (YStr "NaN"))) /\
+  terse_field name "q" = Err SCSV.
+Proof. intros; repeat split; reflexivity. Qed.
+
+Definition terse_field_shape (f : field) : Prop :=
+  (exists n, fname f = Some (YStr n)) /\ (exists t, ftype f = Some t /\ typemap t <> None) /\
+  (exists v, ffill f = Some (YStr v)).
+
+Lemma tersemap_typemap : forall a t, tersemap a = Some t -> typemap t <> None.
+Proof.
+  unfold tersemap; intros a t H.
+  repeat match type of H with (if ?c then _ else _) = _ => destruct c end; inversion H; subst; discriminate.
+Qed.
+
+Lemma terse_field_shape_ok : forall name spec f, terse_field name spec = Ok f -> terse_field_shape f.
+Proof.
+  unfold terse_field; intros name spec f H.
+  set (sp := split_on is_colon spec) in *.
+  assert (FILL : exists v, match sp with _ :: x :: _ => YStr x | _ => default_fill end = YStr v).
+  { destruct sp as [|a [|b r]]; unfold default_fill; eauto. }
+  destruct FILL as [v FILL]. rewrite FILL in H.
+  destruct (String.eqb (hd "" sp) "") eqn:E0.
+  - simpl in H. inversion H; subst. unfold terse_field_shape; simpl. split; [eauto|]. split; [|eauto].
+    exists default_type. split; auto. vm_compute. discriminate.
+  - destruct (tersemap (hd "" sp)) as [tn|] eqn:Et; simpl in H; [|discriminate]. inversion H; subst.
+    unfold terse_field_shape; simpl. split; [eauto|]. split; [|eauto].
+    exists tn. split; auto. eapply tersemap_typemap; eauto.
+Qed.
+
+Lemma terse_fields_shape : forall n l fs, length l <= n -> terse_fields l = Ok fs -> Forall terse_field_shape fs.
+Proof.
+  induction n; intros l fs L H.
+  - destruct l; [|simpl in L; lia]. simpl in H. inversion H. constructor.
+  - destruct l as [|a [|b r]]; simpl in H; try (inversion H; constructor).
+    destruct (terse_field a b) eqn:E; [|discriminate]. simpl in H.
+    destruct (terse_fields r) eqn:Er; [|discriminate]. simpl in H. inversion H; subst.
+    constructor; [eapply terse_field_shape_ok; eauto | eapply IHn; eauto; simpl in L; lia].
+Qed.
+
+(* every schema the terse parser returns has the three keys, string-named fields with a type of
+   SCSV_TYPEMAP, and always a *string* fill -- '' when the spec gives none *)
+Theorem terse_parse_shape : forall t s, parse_terse t = Ok s ->
+  exists d m fs, s = mkSchema (Some d) (Some m) (Some fs) /\ Forall terse_field_shape fs.
+Proof.
+  unfold parse_terse; intros t s H.
+  destruct t as [|c t']; [discriminate|].
+  destruct c as [[] [] [] [] [] [] [] []]; try discriminate.
+  destruct (find_char ":" (String "d" t') (String.length (String "d" t'))) as [ic|]; [|discriminate].
+  destruct (Nat.ltb ic 4); [discriminate|].
+  destruct (find_char "m" (String "d" t') ic) as [im|]; [|discriminate].
+  destruct (Nat.ltb im 2); [discriminate|].
+  match type of H with context [removelast ?x] => set (raw := removelast x) in * end.
+  destruct (Nat.ltb (length raw) 2); [discriminate|].
+  destruct (negb (Nat.even (length raw))); [discriminate|].
+  destruct (terse_fields raw) as [fs|] eqn:E; simpl in H; [|discriminate]. inversion H; subst.
+  do 3 eexists. split; [reflexivity|]. eapply terse_fields_shape; eauto.
+Qed.
+
+Lemma terse_examples_proof :
+  parse_terse "d,m-:colA(s)colB(s:N/A:...)colC()colD(i:999999)colE(f:NaN:%)"
+  = Ok (sch "," "-" [fld "colA" "string" (Some (YStr "")); fld "colB" "string" (Some (YStr "N/A"));
+                      fld "colC" "string" (Some (YStr "")); fld "colD" "integer" (Some (YStr "999999"));
+                      fld "colE" "float" (Some (YStr "NaN"))]) /\
+  parse_terse "d,m-:a(s)" = Ok none_schema /\
+  parse_terse "x" = Err SCSV /\ parse_terse "d,m:a(s)" = Err SCSV /\ parse_terse "dm-:a()" = Err SCSV /\
+  parse_terse "d,m-:a" = Err SCSV /\ parse_terse "d,m-:a(s))" = Err SCSV /\ parse_terse "d,m-:a(q)" = Err SCSV.
+Proof. repeat split; vm_compute; reflexivity. Qed.
